@@ -306,6 +306,60 @@ def qos_subtypes(repo, cflags):
     return res
 
 
+# ------------------------------------------------------------------ EAPOL: key-information switch, key-data cap
+def eapol_tables(repo, cflags):
+    path = os.path.join(repo, "src/libwifi/parse/data/eapol.c")
+    docs = ast_of(cflags, path, "libwifi_")
+    msg = None
+    fn = find_function(docs, "libwifi_check_wpa_message")
+    if fn is not None:
+        sw = [n for n in walk(fn) if n.get("kind") == "SwitchStmt"]
+        if len(sw) == 1:
+            table, default, pending, ok = [], None, [], True
+            body = [c for c in sw[0]["inner"] if c.get("kind") == "CompoundStmt"]
+
+            def handle(st):
+                nonlocal default, pending, ok
+                k = st.get("kind")
+                if k == "CaseStmt":
+                    pending.append(const_value(st["inner"][0]))
+                    handle(st["inner"][-1])
+                elif k == "DefaultStmt":
+                    pending.append("default")
+                    handle(st["inner"][-1])
+                elif k == "ReturnStmt" and st.get("inner"):
+                    v = const_value(st["inner"][0])
+                    for p in pending:
+                        if p == "default":
+                            default = v
+                        else:
+                            table.append((p, v))
+                    pending = []
+                else:
+                    ok = False
+            for st in (body[0].get("inner", []) if body else []):
+                handle(st)
+            if ok and default is not None and all(a is not None and b is not None for a, b in table):
+                msg = (table, default)
+    cap = None
+    fn = find_function(docs, "libwifi_get_wpa_data")
+    if fn is not None:
+        caps = []
+        for n in walk(fn):
+            if n.get("kind") == "IfStmt":
+                c = strip(n["inner"][0])
+                if c.get("kind") == "BinaryOperator" and c.get("opcode") == ">" and \
+                        any(m.get("kind") == "MemberExpr" and m.get("name") == "key_data_length" for m in walk(c["inner"][0])):
+                    v = const_value(c["inner"][1])
+                    if v is not None and v > 0 and strip(c["inner"][1]).get("kind") == "IntegerLiteral":
+                        asg = [a for a in walk(n["inner"][1]) if a.get("kind") == "BinaryOperator" and a.get("opcode") == "="]
+                        if len(asg) == 1 and const_value(asg[0]["inner"][1]) == v:
+                            caps.append(v)
+        if len(caps) == 1:
+            cap = caps[0]
+    return msg, cap
+
+
 # ------------------------------------------------------------------ CRC constants
 def crc_consts(repo, cflags):
     """(init, poly, nbits, final_xor) of libwifi_crc32, or None when the function has another shape"""
@@ -403,6 +457,12 @@ def emit_all(repo, gen, cflags, write_if_changed, build, env=None):
         o.append(";\n".join("  (%s, %s)" % (zlit(v), coq_str(s)) for v, s in table))
         o.append("].")
         o.append("Definition tag_name_default : string := %s." % coq_str(default))
+    msg, cap = eapol_tables(repo, cflags)
+    o.append("Definition eapol_msg_ok : bool := %s." % ("true" if msg is not None else "false"))
+    o.append("Definition eapol_msg_table : list (Z * Z) := [%s]." % "; ".join("(%s, %s)" % (zlit(a), zlit(b)) for a, b in (msg[0] if msg else [])))
+    o.append("Definition eapol_msg_default : Z := %s." % zlit(msg[1] if msg else 0))
+    o.append("Definition eapol_keydata_cap_ok : bool := %s." % ("true" if cap is not None else "false"))
+    o.append("Definition eapol_keydata_cap : Z := %s." % zlit(cap or 0))
     q = qos_subtypes(repo, cflags)
     o.append("Definition qos_subtypes_ok : bool := %s." % ("true" if q is not None else "false"))
     o.append("Definition qos_subtypes : list Z := [%s]." % "; ".join(zlit(v) for v in (q or [])))
